@@ -102,3 +102,23 @@ func Point(member, name string) {
 		h(member, name)
 	}
 }
+
+var failing sync.Map // "member|name" -> struct{}
+
+// SetFail switches the injected failure at (member, name) on or off.
+func SetFail(member, name string, on bool) {
+	if on {
+		failing.Store(key(member, name), struct{}{})
+	} else {
+		failing.Delete(key(member, name))
+	}
+}
+
+// Fail reports whether a failure is to be injected at the named point.
+func Fail(member, name string) bool {
+	_, ok := failing.Load(key(member, name))
+	if ok {
+		Point(member, name+"#failed")
+	}
+	return ok
+}
